@@ -13,7 +13,7 @@ CLAIMS = {
          "Decides the structural clauses of C01 for *every* instance at once: the opcode table against an independently written ISA table on all 840 "
          "(mnemonic, form, index) keys under first-match semantics (every undefined combination is shown to reach the rejecting arm), the zero-page/absolute "
          "boundary guard, little-endian operand bytes, the branch constants (+2, -128..=127, +256, reject otherwise), the operand grammar ↔ addressing-form map "
-         "and alternative order, the mnemonic tag tables, and line locality of the operand grammar. It does not execute the assembler; arithmetic on concrete "
+         "and alternative order, the mnemonic tag tables, line locality of the operand grammar, and that the opcode table takes nothing but mnemonic, form, index register and operand value. It does not execute the assembler; arithmetic on concrete "
          "operands is rustc's.", "§4 C01"),
  "C02": ("field-effect analysis over MIR + structural HIR rules",
          "Decides necessary structural conditions of the fixed point: every context/segment field a pass mutates is reset for the next pass or tabled persistent; "
@@ -31,12 +31,12 @@ CLAIMS = {
  "C05": ("printer/parser coverage rules on typed HIR + extracted combinator grammar",
          "Every field of every AST variant is printed; every trivia-carrying element a parser closure binds is moved, mapped or has its trivia read; elements bound to `_` "
          "consume constant text or nothing; no bound element reaches the tree only through a lossy Option combinator; swallow-all (`rest`) never occurs without a diagnostic; the file parser is all_consuming; case normalisation never touches "
-         "trivia; no parser function removes or replaces characters of source text it keeps. Partitioning of arbitrary text by the trivia parsers is not decided.", "§4 C05"),
+         "trivia; no parser function removes or replaces characters of source text it keeps; an optional group of parsed elements is taken apart completely (no catch-all arm over a `Some`). Partitioning of arbitrary text by the trivia parsers is not decided.", "§4 C05"),
  "C06": ("interprocedural label propagation (taint) over MIR to Assert/allocation/index/loop sinks, with dominating-guard discharge",
          "Every integer the program text controls (literals, evaluated expressions, config values, SymbolData::Number) is followed, field-based and across calls, "
          "to the panicking primitives of the shipped MIR: overflow/division/shift/negation asserts, allocation sizes, indices, loop trip counts; a site is discharged "
          "only by a recognised dominating guard (non-zero switch, constant range check) or a tabled bound. Also: no unwrap on literal conversion, no user string "
-         "into the asserting Identifier constructor, a finite pass bound with a diagnostic, no unwrap/expect on Result<_, Diagnostics> or on I/O results of the command-line path, an import-cycle check in front of the recursive expansion that tests the very value it pushes, a char-boundary test in front of case-insensitive tags that a longer character can fold to. Absence of all panics, "
+         "into the asserting Identifier constructor, a finite pass bound with a diagnostic, no unwrap/expect on Result<_, Diagnostics> or on I/O results of the command-line path, an import-cycle check in front of the recursive expansion that tests the very value it pushes, a char-boundary test in front of case-insensitive tags that a longer character can fold to, a parser input that is the stored text itself (spans index it), no expression function applied under its own lock. Absence of all panics, "
          "stack depth and termination of arbitrary programs are not decided.", "§4 C06"),
  "C07": ("structural rules on typed HIR + must-pass-through on MIR",
          "Decides the structural clauses only: polarity of `.if` (true is `!= 0`), iteration domain and `index` binding of `.loop`, positional macro binding after the arity check, "
@@ -69,14 +69,14 @@ CLAIMS = {
          "and the evaluator resolve through one traversal; usages carry per-segment spans; rename builds its edits from the definition and all recorded usages of every import of the defining file, in original-document coordinates and only where the recorded text is the symbol's name (an import's alias stays), and not at all where an occurrence also stands for a symbol defined elsewhere; every occurrence gets the new name itself (no second look-up by name) and the per-file edit lists of a symbol's copies are merged, never replaced. Everything "
          "else in C15 (byte-identical output after rename, renaming back) is not decided.", "§4 C15/C16"),
  "C16": ("analysis-path coverage on typed HIR (completeness clause only)",
-         "Same completeness clause as C15 plus single-resolver agreement, per-segment usage spans, a per-pass reset of the usage database and a fixed, narrowest-first order among the definitions at a position; references and highlights select the same symbol definitions and answer each place once; the branch of an .if that is not taken is analysed in a scope of its own. Which occurrence binds where on concrete programs is not decided.", "§4 C15/C16"),
+         "Same completeness clause as C15 plus single-resolver agreement, per-segment usage spans, a per-pass reset of the usage database and a fixed, narrowest-first order among the definitions at a position; references and highlights select the same symbol definitions and answer each place once; the branch of an .if that is not taken is analysed in a scope of its own; a column, which counts characters, is never taken for a number of bytes in the code map, the analysis database and the source map. Which occurrence binds where on concrete programs is not decided.", "§4 C15/C16"),
  "C17": ("label propagation BYTELEN → LSP positions; dominance and shape rules on HIR",
          "No UTF-8 byte length/offset becomes an LSP character in the formatting answer; formatting only without diagnostics; the language server and the CLI share one formatter "
          "and the server uses default options; the edit loop advances its position tracker over deleted and unchanged chunks only, in merged edits too; no character-counting column of the code map reaches an edit position; the diff is taken against the stored buffer itself. The diff-to-edit result on concrete buffers is "
          "not decided.", "§4 C17"),
  "C18": ("field-effect analysis on MIR + table agreement + shape rules on HIR",
          "Pending assertions are never mutated during a run; CPU flag masks and register keys agree with the 6502 and the guide; ram16 byte order; failure iff zero/unevaluable, "
-         "success only at BRK after the assertions at that address; exit status 1 iff a test failed; memory accessors do not slice RAM unchecked; the assertion scan covers every pending element; relocated segments are loaded where the cpu runs them. The emulator itself is external.", "§4 C18"),
+         "success only at BRK after the assertions at that address; exit status 1 iff a test failed; memory accessors do not slice RAM unchecked; the assertion scan covers every pending element; relocated segments are loaded where the cpu runs them; the runner keeps only the assertions and traces of the bank it loaded. The emulator itself is external.", "§4 C18"),
  "C19": ("guard-liveness must-analysis on MIR + shape rules on HIR (lock-coverage and stepping-shape clauses)",
          "In the machine thread every CPU-advancing call happens under a running-state guard taken before the state test; pause reads the program counter under the guard that "
          "covers the store of Stopped(pc); the breakpoint test dominates every step of a free run and searches the shared list under its lock, exempting only the address the machine was halted at; next/stepIn/stepOut step under the same guard and stop through pause; next/stepOut follow the call depth (jsr/rts paired, not the stack pointer); breakpoints are kept per source file; evaluate fetches registers and flags on every path to the expression evaluator. All other interleavings and stepping on concrete programs are not decided.", "§4 C19"),
